@@ -11,6 +11,9 @@
 (*                                                                  -> no obligation left,       *)
 (*                                                                     live set = contract's     *)
 (*   reset   a fresh supervisor                                                                  *)
+(*   gate    (coverage only) end of a long burst of snapshots pushed while the handlers were     *)
+(*           kept busy by slow / gated callbacks; nothing happens in the contract: however far   *)
+(*           the reconciliation lags behind the snapshots, the obligations stay the same         *)
 (*                                                                                              *)
 (* The order of callbacks of different names is free, so is the order of Close(old)/Init(new)   *)
 (* of a kind change; TLC searches the (small) choice of which obligation a callback discharges. *)
@@ -65,7 +68,9 @@ TQuiet ==
          /\ clive[x] # NoInst => (o.id \in DOMAIN bind /\ bind[o.id] = Ref(x, clive[x].born))
     /\ UNCHANGED <<cvars, bind>>
 
-TNext == TReset \/ TSnap \/ TCb \/ TQuiet
+TGate == IsEvent("gate") /\ UNCHANGED <<cvars, bind>>
+
+TNext == TReset \/ TSnap \/ TCb \/ TQuiet \/ TGate
 
 TInit == CInit /\ l = 1 /\ bind = <<>>
 
